@@ -191,10 +191,11 @@ def digests_for(seed, n, tier="quick"):
             # accumulated in hash order differs in its last bits
             scn = sysgen.gen_generated(r, r.choice(["naive", "priority", "priority", "overbook"]), tier)
             ti, tq, tb = r.choice([(0.3, 0.1, 0.6), (0.33, 0.33, 0.34), (0.25, 0.25, 0.5), (0.15, 0.35, 0.5)])
-            scn["cfg"].update(tps=r.choice([10, 100, 3, 7]), waiting_seconds_mean=r.choice([0.3, 0.7, 1.1]), num_pipelines=4,
+            scn["cfg"].update(tps=r.choice([10, 100, 3, 7]), num_pipelines=4,
                               num_operators=r.choice([1, 2]), cpus=64, ram=1000, pools=r.choice([2, 3]),
                               interactive_prob=ti, query_prob=tq, batch_prob=tb, cpu_io_ratio=0.5)
-            scn["cfg"]["duration"] = float(r.randint(40, 120))
+            scn["cfg"]["duration"] = float(r.randint(300, 1200)) / scn["cfg"]["tps"]
+            scn["cfg"]["waiting_seconds_mean"] = r.choice([3, 7, 11]) / scn["cfg"]["tps"]
             scn["cfg"]["over"] = scn["cfg"]["algo"] == "overbook"
             scn["u2"] = r.randint(1, 10 ** 9)
         elif i % 2:
